@@ -1587,14 +1587,15 @@ impl DtlsInner {
         handshake_msg.encode(&mut buf);
         ctx.handshake_messages.extend_from_slice(&buf);
 
-        self.send_handshake_message(
-            handshake_msg,
-            ctx.epoch,
-            &mut ctx.sequence_number,
-            None,
-            is_client,
-        )
-        .await?;
+        let cke_record = self
+            .send_handshake_message(
+                handshake_msg,
+                ctx.epoch,
+                &mut ctx.sequence_number,
+                None,
+                is_client,
+            )
+            .await?;
         ctx.message_seq += 1;
 
         // Compute shared secret
@@ -1657,7 +1658,8 @@ impl DtlsInner {
         ctx.session_crypto = Some(create_session_crypto(keys.clone())?);
         ctx.session_keys = Some(keys);
 
-        let mut flight_records: Vec<Vec<u8>> = Vec::new();
+        // ClientKeyExchange belongs to this flight: it must be retransmitted with it.
+        let mut flight_records: Vec<Vec<u8>> = vec![cke_record];
 
         // Send ChangeCipherSpec
         let record = DtlsRecord {
@@ -1704,7 +1706,9 @@ impl DtlsInner {
             ctx.session_keys.as_ref(),
             is_client,
         )?);
-        self.conn.send_dtls_record_batch(&flight_records).await?;
+        self.conn
+            .send_dtls_record_batch(&flight_records[1..])
+            .await?;
         ctx.last_flight_records = Some(flight_records);
         ctx.message_seq += 1;
 
